@@ -34,6 +34,8 @@ var (
 	leafT   = reflect.TypeOf(Leaf{})
 )
 
+type KeyS struct{ A int }
+
 type dv struct {
 	v    reflect.Value
 	desc string
@@ -107,6 +109,17 @@ func vals(t reflect.Type, structMenu map[reflect.Type][]dv) []dv {
 			k1, k2 = reflect.ValueOf(true), reflect.ValueOf(false)
 		case reflect.Int32:
 			k1, k2 = reflect.ValueOf(int32(7)), reflect.ValueOf(int32(-8))
+		case reflect.Float64:
+			k1, k2 = reflect.ValueOf(1.5), reflect.ValueOf(-2.25)
+		case reflect.Struct:
+			k1, k2 = reflect.ValueOf(KeyS{1}), reflect.ValueOf(KeyS{2})
+		case reflect.Interface:
+			k1, k2 = reflect.ValueOf("s"), reflect.ValueOf(7)
+			k1, k2 = k1.Convert(t.Key()), k2.Convert(t.Key())
+		case reflect.Array:
+			k1, k2 = reflect.ValueOf([2]int{1, 2}), reflect.ValueOf([2]int{0, 0})
+		case reflect.Uint8:
+			k1, k2 = reflect.ValueOf(uint8(200)), reflect.ValueOf(uint8(0))
 		}
 		out := []dv{{reflect.Zero(t), "nil"}, {reflect.MakeMap(t), "{}"}}
 		for _, a := range el {
@@ -136,6 +149,9 @@ func containers(elem reflect.Type) []reflect.Type {
 		reflect.ArrayOf(2, elem), reflect.ArrayOf(2, p),
 		reflect.MapOf(reflect.TypeOf(""), elem), reflect.MapOf(reflect.TypeOf(""), p), reflect.MapOf(reflect.TypeOf(0), p), reflect.MapOf(reflect.TypeOf(true), elem),
 		reflect.MapOf(reflect.TypeOf(int32(0)), pp),
+		// keys of less usual kinds: the element path shows the key itself
+		reflect.MapOf(reflect.TypeOf(float64(0)), p), reflect.MapOf(reflect.TypeOf(KeyS{}), elem), reflect.MapOf(reflect.TypeOf((*interface{})(nil)).Elem(), p), reflect.MapOf(reflect.TypeOf([2]int{}), elem),
+		reflect.MapOf(reflect.TypeOf(uint8(0)), elem),
 	}
 }
 
@@ -157,6 +173,10 @@ func extraFields(variant int) []reflect.StructField {
 		return []reflect.StructField{{Name: "T", Type: reflect.TypeOf(time.Time{}), Tag: `valid:"required"`}}
 	case 3:
 		return []reflect.StructField{{Name: "U", Type: leafT}, {Name: "UP", Type: reflect.PtrTo(leafT)}}
+	case 4:
+		// unexported names that do not start with a lower-case ASCII letter
+		return []reflect.StructField{{Name: "_shadow", PkgPath: "main", Type: leafT, Tag: `valid:"required"`}, {Name: "内部", PkgPath: "main", Type: reflect.SliceOf(leafT), Tag: `valid:"required"`},
+			{Name: "ünter", PkgPath: "main", Type: reflect.PtrTo(leafT), Tag: `valid:"exist"`}}
 	}
 	return nil
 }
@@ -328,7 +348,7 @@ func run(c *runner.Ctx) {
 	c.Space("depth2/one-field")
 	for _, ct := range containers(leafT) {
 		for _, mk := range marks {
-			for ex := 0; ex < 4; ex++ {
+			for ex := 0; ex < 5; ex++ {
 				fields := append([]reflect.StructField{{Name: "F0", Type: ct, Tag: tagOf(mk)}}, extraFields(ex)...)
 				st := reflect.StructOf(fields)
 				vs := vals(ct, leafMenu)
@@ -492,14 +512,16 @@ func shortT(t reflect.Type) string {
 }
 
 type Mid struct {
-	L    Leaf            `valid:"required"`
-	PL   *Leaf           `valid:"exist"`
-	SL   []*Leaf         `valid:"required"`
-	ML   map[string]Leaf `valid:"exist"`
-	U    Leaf            // unmarked: never validated
-	T    time.Time       `valid:"required"`
-	priv Leaf            `valid:"required"`
-	N    int             `valid:"ge=2"`
+	L       Leaf            `valid:"required"`
+	PL      *Leaf           `valid:"exist"`
+	SL      []*Leaf         `valid:"required"`
+	ML      map[string]Leaf `valid:"exist"`
+	U       Leaf            // unmarked: never validated
+	T       time.Time       `valid:"required"`
+	priv    Leaf            `valid:"required"`
+	_shadow Leaf            `valid:"required"`
+	内部      *Leaf           `valid:"required"`
+	N       int             `valid:"ge=2"`
 }
 
 type Embedded struct {
@@ -551,7 +573,7 @@ func main() {
 	runner.Main(runner.Config{
 		Property:  "C04",
 		Technique: "bounded-exhaustive enumeration of acyclic object graphs (container grammar, depth<=3) vs walk reference model (expected clause/path list)",
-		Rule: "types: 13 containers of Leaf {T,*T,**T,[]T,[]*T,[]**T,[2]T,[2]*T,map[string]T,map[string]*T,map[int]*T,map[bool]T,map[int32]**T} x marks {required,exist,none} as one or two fields (+unexported, time.Time, unmarked extras), " +
+		Rule: "types: 18 containers of Leaf {T,*T,**T,[]T,[]*T,[]**T,[2]T,[2]*T,map[string]T,map[string]*T,map[int]*T,map[bool]T,map[int32]**T,map[float64]*T,map[struct]T,map[interface{}]*T,map[[2]int]T,map[uint8]T} x marks {required,exist,none} as one or two fields (+unexported incl. names starting with '_' / a CJK or non-ASCII lower-case letter, time.Time, unmarked extras), " +
 			"nested once more through every container of Mid (depth 3; thorough: unmarked outer fields too, and a depth-4 space over 8 container kinds per level); values: nil / zero / valid / violating nodes, collections of length 0..2 with every mix; top-level input T,*T,**T,[]T,[]*T,[2]T,map[string]*T,map[int]T; " +
 			"plus a named Parent/Mid/Leaf family; Leaf = {required, to=1~3, either group of two}; expected clauses from the walk model: field clauses compared in order (as a multiset when a map with >=2 entries is iterated), group clauses (reported after the walk, path-qualified per sub-object) after them as a multiset; non-trivial = a violation at depth>=2",
 		Assumptions: []string{"acyclic graphs only (statement)", "walk model internal/walk"},
